@@ -17,7 +17,7 @@ def build_sequence(env, parents, salt=0):
     nodes = [g]
     for i, p in enumerate(parents):
         par = nodes[p]
-        cb = chaingen.coinbase(par.height + 1, 10 ** 9, b'\x11' * 64, data=bytes([i, salt & 255, (salt >> 8) & 255]))
+        cb = chaingen.coinbase(par.height + 1, 10 ** 9, b'\x11' * 64, data=bytes([i & 255, (i >> 8) & 255, salt & 255, (salt >> 8) & 255]))
         blk = chaingen.assemble(env, par, [cb], par.view.time + 60 + i, mine=False)
         nodes.append(chaingen.Node(blk, par, spec.apply_block(par.utxo, spec.BlockView(blk))))
     return nodes
@@ -58,6 +58,72 @@ def lca_expected(nodes, head_id):
     return sorted(out)
 
 
+def node_level(ck, tier):
+    import nodeharness
+    import simnet
+    from skepticoin.networking import messages as M
+    rng = ck.rng
+    keys = chaingen.Keys()
+    for trial in range(3 if tier == 'quick' else 12):
+        with chaingen.Env(period=50) as env:
+            tg = chaingen.TreeGen(env, keys, rng)
+            g = tg.genesis
+            a = [tg.extend(g, txs=[], fees=0, dt=60)]
+            for _ in range(rng.choice([1, 2])):
+                a.append(tg.extend(a[-1], txs=[], fees=0, dt=60))
+            b = [tg.extend(g, txs=[], fees=0, dt=61)]                  # sibling of the first block: head does not move
+            while len(b) < len(a):
+                b.append(tg.extend(b[-1], txs=[], fees=0, dt=61))       # ties
+            b.append(tg.extend(b[-1], txs=[], fees=0, dt=61))           # overtakes
+            extra = tg.extend(a[0], txs=[], fees=0, dt=70)              # another childless side block
+            deliveries = a + b[:-1] + [extra, b[-1]]
+            if trial % 2 == 1:
+                deliveries = [a[0], b[0]] + a[1:] + b[1:-1] + [extra, b[-1]]
+            with simnet.Net(seed=rng.getrandbits(30), t0=max(n.view.time for n in tg.nodes) + 100) as net:
+                sn = nodeharness.SingleNode(net, chaingen.impl_state_from([g]), [], npeers=2)
+                sn.new_messages()
+                arrived = [g]
+                for nd in deliveries:
+                    sn.deliver(rng.randrange(2), M.DataMessage(M.DATA_BLOCK, nd.block))
+                    arrived.append(nd)
+                    cs = sn.lp().chain_manager.coinstate
+                    head, tips, index = impl_observe(cs)
+                    ehead, etips, eindex = expected(arrived)
+                    ck.case(('node', trial, len(arrived)), kind='node-level/%d-blocks' % len(arrived))
+                    rp = {'node_level': True, 'trial': trial, 'delivered': [x.block.serialize().hex() for x in arrived[1:]]}
+                    if set(bytes(h) for h in cs.block_by_hash.keys()) != set(x.id for x in arrived):
+                        ck.violation('node-drops-valid-block', 'after %d valid blocks were delivered parent-first the served '
+                                     'chain state holds %d blocks' % (len(arrived) - 1, len(cs.block_by_hash) - 1), rp)
+                        break
+                    if head != ehead:
+                        ck.violation('head-not-first-seen-max', 'node level: the served head is not the first-seen block of '
+                                     'greatest height after %d deliveries' % (len(arrived) - 1), rp)
+                        break
+                    if tips != etips:
+                        ck.violation('tips-not-childless-set', 'node level: reported tips differ from the childless stored blocks', rp)
+                        break
+
+
+def miner_level(ck, tier):
+    """arrivals at a node come from two threads: relayed blocks (network thread) and found blocks (miner thread).  A found block
+    whose candidate was handed out before the network thread adopted peer blocks arrives AFTER them"""
+    import check_C12
+    for trial in (1, 2):                     # 1 resp. 2 peer blocks adopted between the work request and the result
+        facts = check_C12.stale_result_scenario(ck, trial, tier)
+        if not facts:
+            continue
+        ehead, etips, _ = expected(facts['arrived'])
+        ck.case(('miner-level', trial), kind='node-level/found-block-after-%d-peer-blocks' % facts['k_between'])
+        missing = [x for x in facts['arrived'] if x.id not in facts['served_blocks']]
+        if facts['served_head'] != ehead or missing or facts['served_tips'] != etips:
+            ck.violation('found-block-displaces-adopted-peer-blocks',
+                         'arrivals at the node: %d peer block(s) adopted by the network thread, then the miner thread\'s found '
+                         'block built on the earlier head: the served head is %s (first-seen block of greatest height: the peer '
+                         'block), %d arrived block(s) are missing from the served chain state'
+                         % (facts['k_between'], 'the found block' if facts['served_head'] == facts['found'] else 'another block',
+                            len(missing)), facts['replay'])
+
+
 def run(tier, seed):
     ck = common.Check('C04', tier, seed)
     nmax = 6 if tier == 'quick' else 7
@@ -90,6 +156,13 @@ def run(tier, seed):
                 else:
                     ps.append(ck.rng.randrange(0, i + 1))
             seqs.append(ps)
+        # long histories: a fork near the bottom, then hundreds / thousands of blocks on the active chain (a childless
+        # block stays a tip however deep it lies), and a deep side branch that finally overtakes
+        for depth in ((800,) if tier == 'quick' else (800, 1500, 3000)):
+            # arrivals 1 and 2 are siblings on genesis, arrival 3 extends arrival 2, then a line on top of it
+            ps = [0, 0, 2] + [i for i in range(3, 3 + depth)]
+            seqs.append(ps)
+            seqs.append(ps + [1] + [len(ps) + 1 + j for j in range(depth + 2)])     # branch from arrival 1 grows past it
         ck.extra['exhaustive'] = True
         ck.extra['exhaustive_sequences'] = nexh
         for k, parents in enumerate(seqs):
@@ -126,8 +199,25 @@ def run(tier, seed):
                 tbl.append(('sha256d', nd.view.header_bytes, nd.id))
                 for t in nd.view.txs:
                     tbl.append(('sha256d', t.bytes, t.id))
-            reqs.append(('chain', tbl, [env.params_sx(), [[0, nd.block.serialize()] for nd in nodes] + [[3]], 1]))
-            meta.append((parents, chaingen.digest_state(cs), forks))
+            if len(parents) <= 100:
+                reqs.append(('chain', tbl, [env.params_sx(), [[0, nd.block.serialize()] for nd in nodes] + [[3]], 1]))
+                meta.append((parents, chaingen.digest_state(cs), forks))
+            else:
+                ck.count('long-sequence(oracle only)')
+    # ---- node level: the same statements for the chain state a NODE serves after the blocks were delivered by peers
+    #      (siblings that do not move the head, side branches that tie and then overtake)
+    try:
+        node_level(ck, tier)
+    except Exception:
+        import traceback
+        ck.disagree('node-level scenario crashed: %s' % traceback.format_exc()[-500:], {})
+    try:
+        miner_level(ck, tier)
+    except Exception:
+        import traceback
+        tb = traceback.format_exc()
+        if 'could not mine a block' not in tb:
+            ck.disagree('miner-level scenario crashed: %s' % tb[-500:], {})
     if r.ok:
         outs = model.run_batch(reqs)
         for (parents, dg, forks), o in zip(meta, outs):
